@@ -6,6 +6,7 @@ export GOFLAGS=-mod=mod GOPROXY=off GOSUMDB=off GOTOOLCHAIN=local
 mkdir -p .build/bin evidence replays
 cp /repo/go.sum harness/go.sum
 (cd harness && go build -tags verif -o ../.build/bin/extract ./cmd/extract && ../.build/bin/extract /repo ../lean/EsbuildModel/Gen)
+(cd harness && go build -tags verif -o ../.build/bin/identtables ./cmd/identtables && ../.build/bin/identtables ../lean/EsbuildModel/Gen/IdentTables.lean)
 (cd tools/mapranges && go build -o ../../.build/bin/mapranges . && ../../.build/bin/mapranges /repo ../../lean/EsbuildModel/Gen/MapRanges.lean ./internal/linker ./internal/bundler ./pkg/api ./internal/graph ./internal/resolver ./internal/js_printer ./internal/css_printer ./internal/renamer)
 (cd lean && lake build)
 (cd harness && go build -tags verif -o ../.build/bin/hinternal ./cmd/hinternal && go build -tags verif -o ../.build/bin/hapi ./cmd/hapi)
